@@ -538,6 +538,13 @@ func writesUnderOwnLock(f *ssa.Function) bool {
 	n := 0
 	for _, b := range f.Blocks {
 		for _, in := range b.Instrs {
+			// e.once.Do(func() { e.err = err }): the stores of the function literal run once
+			if call, ok := in.(*ssa.Call); ok {
+				if cl := calleeOf(&call.Call); cl.Pkg == "sync" && cl.Recv == "Once" && cl.Name == "Do" {
+					n++
+					continue
+				}
+			}
 			st, ok := in.(*ssa.Store)
 			if !ok || isLocalCellAddr(st.Addr) {
 				continue
